@@ -73,6 +73,11 @@ def leaf_catalogue(tier='quick'):
     add('Num_FROM_09', lambda: Type('NumericString', alpha='0123456789', alpha_text='"0".."9"'))
     add('Print_FROM_AZ', lambda: Type('PrintableString', alpha='ABCDEFGHIJKLMNOPQRSTUVWXYZ', alpha_text='"A".."Z"'))
     add('IA5_FROM_x', lambda: Type('IA5String', alpha='x', alpha_text='"x"'))
+    # alphabets made of several disjoint ranges are compiled to a lookup table (a single range becomes comparisons); top characters on and
+    # off a multiple of 16 (the table is emitted in rows of 16)
+    add('IA5_FROM_af_p', lambda: Type('IA5String', alpha='abcdefp', alpha_text='"a".."f" | "p"'))
+    add('IA5_FROM_09_at_S1_4', lambda: Type('IA5String', size=Cons(1, 4), alpha='0123456789@', alpha_text='"0".."9" | "@"'))
+    add('Vis_FROM_ac_xz', lambda: Type('VisibleString', alpha='abcxyz', alpha_text='"a".."c" | "x".."z"'))
     add('BMP_FROM_AZ', lambda: Type('BMPString', alpha='ABCDEFGHIJKLMNOPQRSTUVWXYZ', alpha_text='"A".."Z"'))
     add('UTF8String', lambda: Type('UTF8String'))
     add('UTF8String_S1_4', lambda: Type('UTF8String', size=Cons(1, 4)))
